@@ -131,12 +131,13 @@ Qed.
 Theorem open_conn_code : forall c st a i inb usefd ep,
   cfg_ok c -> Inv c (scopes st) a -> hget (holders a) (Conn i) = None ->
   let '(st', cls) := open_conn c st i inb usefd ep in
-  cls = 0 \/ cls = 1 \/ (cls = 4 /\ ep <> None).
+  cls = 0 \/ cls = 1 \/ (cls = 4 /\ exists ip, ep = Some ip /\ limiter_add c (lims st) ip = None).
 Proof.
   intros c st a i inb usefd ep LO I Hf. unfold open_conn.
   destruct (match ep with Some a0 => match limiter_add c (lims st) a0 with Some l => Some l | None => None end
                         | None => Some (lims st) end) as [l|] eqn:El.
-  2:{ right. right. split; [reflexivity|]. destruct ep; [discriminate | discriminate]. }
+  2:{ right. right. split; [reflexivity|]. destruct ep as [a0|]; [|discriminate].
+      destruct (limiter_add c (lims st) a0) eqn:LA; [discriminate|]. exists a0. split; [reflexivity | exact LA]. }
   destruct (I_base c _ a I) as (B1 & B2 & B3 & B4).
   unfold new_scope at 1.
   set (mb := increfs (scopes st) [Transient; System]).
